@@ -175,7 +175,13 @@ func (dw *DiskWriter) HandleChange(kind ChangeKind, p string, fi os.FileInfo, er
 	case fi.Mode()&os.ModeSymlink == 0 && statCopy.Linkname != "":
 		// hard link: also for devices and fifos, which the walk announces as
 		// links to the first member of their inode group
-		if err := os.Link(filepath.Join(dw.dest, statCopy.Linkname), newPath); err != nil {
+		linkSrc := filepath.Join(dw.dest, statCopy.Linkname)
+		if srcFi, err := os.Lstat(linkSrc); rename && err == nil && os.SameFile(srcFi, oldFi) {
+			// destPath already is a name of the wanted inode. rename(2) of
+			// one name of an inode over another one is a no-op that would
+			// leave the temporary name behind: update it in place.
+			newPath, rename = destPath, false
+		} else if err := os.Link(linkSrc, newPath); err != nil {
 			return errors.Wrapf(err, "failed to link %s to %s", newPath, statCopy.Linkname)
 		}
 	case fi.Mode()&os.ModeDevice != 0 || fi.Mode()&os.ModeNamedPipe != 0:
